@@ -168,12 +168,8 @@ pub fn validate(repo: &str) -> i32 {
         if r1.is_ok() == format_error {
             problems.push(format!("{name}: R1 says {:?}, the corpus expects {}", r1.as_ref().map(|_| "valid").map_err(|e| e.clone()), if format_error { "a format/signature error" } else { "a valid token" }));
         }
-        // the library on the same bytes
-        let lib_root = biscuit_auth::PublicKey::from_bytes(&root.bytes, biscuit_auth::builder::Algorithm::Ed25519).unwrap();
-        let lib = biscuit_auth::Biscuit::from(&bytes, lib_root);
-        if lib.is_ok() != r1.is_ok() {
-            problems.push(format!("{name}: R1 {:?} but the library {:?}", r1.is_ok(), lib.as_ref().map(|_| ()).map_err(|e| format!("{e:?}"))));
-        }
+        // (what the *library* does on the corpus is a property matter, not a model matter:
+        // see corpus.rs, run as part of the checks)
         if let Ok(content) = &r1 {
             // R1 signer: the authority signature is a deterministic function of the published root key
             let auth = &content.blocks[0];
